@@ -7,7 +7,7 @@ import sys, os, json, random
 
 REPO = os.environ.get("VERIF_REPO", "/repo")
 sys.path.insert(0, os.path.dirname(os.path.dirname(os.path.abspath(__file__))))
-sys.path.insert(0, REPO)
+sys.path.insert(0, os.environ.get("VERIF_LIB_PATH") or REPO)          # (VERIF_LIB_PATH: e.g. a zip archive of the package)
 
 
 def auth_lines(rng):
@@ -299,6 +299,60 @@ def masquerade(kinds):
                 def today(cls):
                     return real_dt.fromtimestamp(_time.time()).date()
             _dt.datetime, _dt.date = _DateTime, _Date
+        elif k == "phantom-modules":
+            # optional third-party packages the CHANGED source tries to import (harness/srcdict.new_imports) and this machine lacks: stand-ins are put into sys.modules, so that
+            # "if the package is installed" branches run.  certifi.where() names a bundle holding the harness's forged roots; idna / others get thin stdlib-backed shims; anything
+            # else is a module whose attributes are permissive callables.
+            import importlib.util
+            from harness import srcdict
+            bundle = os.path.join(os.path.dirname(os.path.dirname(os.path.abspath(__file__))), "build", "ca_bundle", "forged_roots.pem")
+            for name in srcdict.new_imports():
+                try:
+                    if importlib.util.find_spec(name) is not None:
+                        continue
+                except Exception:
+                    pass
+                m = types.ModuleType(name)
+                m.__file__ = "<phantom %s>" % name
+                m.__path__ = []
+                if name == "certifi":
+                    m.where = lambda: bundle
+                    m.contents = lambda: open(bundle).read()
+                elif name == "idna":
+                    m.encode = lambda s, **kw: s.encode("idna") if isinstance(s, str) else s
+                    m.decode = lambda s, **kw: (s if isinstance(s, str) else s.decode("ascii")).encode("ascii").decode("idna")
+                    m.IDNAError = UnicodeError
+                elif name in ("simplejson", "ujson", "orjson", "rapidjson"):
+                    m.loads, m.dumps, m.JSONDecodeError = json.loads, json.dumps, json.JSONDecodeError
+                else:
+                    class _Any:
+                        def __call__(self, *a, **kw): return a[0] if a else None
+                        def __getattr__(self, n): return _Any()
+                    m.__getattr__ = lambda n: _Any()
+                sys.modules[name] = m
+        elif k.startswith("files:"):
+            # absolute paths the changed source newly names (harness/srcdict.paths): every one exists and reads as the given content
+            import builtins, io
+            from harness import srcdict
+            content = k.split(":", 1)[1]
+            served = set(srcdict.paths())
+            real_open, real_exists, real_isfile = builtins.open, os.path.exists, os.path.isfile
+            def fake_open(file, mode="r", *a, **kw):
+                if isinstance(file, (str, bytes, os.PathLike)) and os.fspath(file) in served:
+                    return io.BytesIO(content.encode() + b"\n") if "b" in mode else io.StringIO(content + "\n")
+                return real_open(file, mode, *a, **kw)
+            builtins.open = fake_open
+            io.open = fake_open
+            os.path.exists = lambda p_: (os.fspath(p_) in served) or real_exists(p_)
+            os.path.isfile = lambda p_: (os.fspath(p_) in served) or real_isfile(p_)
+            try:
+                import pathlib
+                real_rt, real_rb, real_pe = pathlib.Path.read_text, pathlib.Path.read_bytes, pathlib.Path.exists
+                pathlib.Path.read_text = lambda self, *a, **kw: (content + "\n") if str(self) in served else real_rt(self, *a, **kw)
+                pathlib.Path.read_bytes = lambda self: (content.encode() + b"\n") if str(self) in served else real_rb(self)
+                pathlib.Path.exists = lambda self, *a, **kw: True if str(self) in served else real_pe(self, *a, **kw)
+            except Exception:
+                pass
         elif k == "small-recursion":
             sys.setrecursionlimit(220)
         elif k == "maxsize32":
